@@ -674,6 +674,22 @@ func (fr *frame) checkGuards(st *PState, qname string, sig *types.Signature, arg
 					vars[name] = v
 				}
 			}
+			// address-taken named locals of the function (structs decoded into, slices captured by closures)
+			for _, b := range fr.fn.Blocks {
+				for _, ins := range b.Instrs {
+					if a, ok := ins.(*ssa.Alloc); ok && a.Comment != "" {
+						if _, taken := vars[a.Comment]; taken {
+							continue
+						}
+						if pv, ok := st.env[a].(*PtrVal); ok {
+							func() {
+								defer func() { recover() }()
+								vars[a.Comment] = st.LoadPtr(pv)
+							}()
+						}
+					}
+				}
+			}
 			// loop-carried values of the loops the call site sits in (rangeindex, counters), innermost first
 			type encl struct {
 				h    *ssa.BasicBlock
